@@ -229,6 +229,9 @@ func runC01(r *Run) {
 	r.Expect("C01.2", 4, "guards on the shift call")
 	r.Expect("C01.3", 4, "committed header save")
 	r.Expect("C01.8", 15, "threshold comparisons")
+	// the certificate is weighed against the validator set the chain prescribes for that height:
+	// where the kernel views get their validator sets from (live shift and start-up) is C07.1
+	r.Borrow(runC07, "C07", "C07.1", "C01.10", "a kernel view's validator set is the committed header's NextValidatorSet (shift) or, at start-up, the genesis set / NextValidatorSet of the stored committed header")
 }
 
 func checkReplay(r *Run, fn *ssa.Function) {
